@@ -279,8 +279,12 @@ class DecFileParser:
         if self._additional_decay_models is None:
             self._additional_decay_models = models
         else:
-            self._additional_decay_models = chain.from_iterable(
-                (self._additional_decay_models, models)
+            self._additional_decay_models = (*self._additional_decay_models, *models)
+
+        # Models added after the grammar has been loaded must also reach the parser
+        if self._grammar_info is not None:
+            self._grammar_info["edit_terminals"] = (
+                self._generate_edit_terminals_callback()
             )
 
     def _load_grammar(
